@@ -75,3 +75,11 @@ where
         f()
     })
 }
+
+/// In the simulator everything already runs on one thread: just run the closure.
+pub fn block_in_place<F, R>(f: F) -> R
+where
+    F: FnOnce() -> R,
+{
+    f()
+}
